@@ -360,9 +360,16 @@ def judge_cut(acc, base, obs, answers, writer=(None, None)):
         model_recs, impl, rendered, real_text = w
         impl_recs = list(impl['recs'])
         acc.count('renderer-compared')
-        if not (rendered['rend_ok'] and rendered['dps_ok'] and rendered['cmd_ok']):
+        # the side conditions of the byte-prefix theorem, evaluated by the model on this very session.
+        # `cmdOk` (the command line does not end like a JSON value) is a condition on the generated input:
+        # command lines ending in } ] " are generated on purpose and only counted
+        cmd = real_text.split('\n')[0][2:]
+        cmd_expected = not cmd.endswith(('}', ']', '"')) and '\t' not in cmd
+        if not rendered['cmd_ok']:
+            acc.count('session-outside-side-condition-cmdOk')
+        if not (rendered['rend_ok'] and rendered['dps_ok']) or rendered['cmd_ok'] != cmd_expected:
             acc.disagree('c09.render: the side conditions of the byte-prefix theorem do not hold for this session',
-                         inp, {'cmd': real_text.split('\n')[0]},
+                         inp, {'cmd': real_text.split('\n')[0], 'cmd_ok_expected': cmd_expected},
                          {k: rendered[k] for k in ('rend_ok', 'dps_ok', 'cmd_ok')},
                          ['RB.Loader.c09_load_after_any_byte_prefix_rendered'])
         if rendered['text'] != real_text:
@@ -580,7 +587,7 @@ def run(ck):
             params = gen_params(ck.rng, i)
             rng = ck.rng
             acc, base = process(params, os.path.join(ck.scratch, 's%d' % i),
-                                lambda base: cut_points(base, rng, 'quick', 22 if i == 0 else 21), ck.model)
+                                lambda base: cut_points(base, rng, 'quick', 12), ck.model)
             acc.merge_into(ck)
             ck.count('scenario')
             ck.count('appended-bytes', len(base.appended))
